@@ -72,3 +72,73 @@ Proof.
     split; [unfold req_key; congruence | exact Hin].
   - intros r. subst rs. rewrite filter_In. rewrite String.eqb_eq. reflexivity.
 Qed.
+
+(* AllUnstakeRequests / AllUnstakeRequestsV2: the by-user index in key order.  Without a cursor and a limit: every open
+   request exactly once (a permutation of the request table), ordered by (length of user, user, batch id). *)
+From Coq Require Import Permutation Sorted.
+
+Lemma rinsert_perm r l : Permutation (rinsert r l) (r :: l).
+Proof.
+  induction l as [|x t IH]; cbn; [apply Permutation_refl|].
+  destruct (req_index_le r x); [apply Permutation_refl|].
+  eapply perm_trans; [apply perm_skip; exact IH | apply perm_swap].
+Qed.
+Lemma by_user_index_perm l : Permutation (by_user_index l) l.
+Proof.
+  induction l as [|x t IH]; cbn; [constructor|].
+  eapply perm_trans; [apply rinsert_perm | apply perm_skip; exact IH].
+Qed.
+
+Lemma string_compare_refl a : String.compare a a = Eq.
+Proof.
+  induction a as [|c a IH]; cbn; [reflexivity|].
+  unfold Ascii.compare. rewrite N.compare_refl. exact IH.
+Qed.
+Lemma req_index_le_total a b : req_index_le a b = false -> req_index_le b a = true.
+Proof.
+  unfold req_index_le. cbv zeta.
+  destruct (slen (r_user a) <? slen (r_user b)) eqn:E1; [discriminate|].
+  destruct (slen (r_user b) <? slen (r_user a)) eqn:E2; [reflexivity|].
+  rewrite (String.compare_antisym (r_user a) (r_user b)).
+  destruct (String.compare (r_user b) (r_user a)) eqn:C; cbn; try discriminate; try reflexivity.
+  intros H. apply N.leb_gt in H. apply N.leb_le. lia.
+Qed.
+
+Lemma rinsert_sorted r l :
+  Sorted (fun a b => req_index_le a b = true) l -> Sorted (fun a b => req_index_le a b = true) (rinsert r l).
+Proof.
+  induction l as [|x t IH]; cbn; intros H.
+  - constructor; constructor.
+  - destruct (req_index_le r x) eqn:E.
+    + constructor; [exact H | constructor; exact E].
+    + inversion H as [|? ? Ht Hx]; subst. constructor; [apply IH; exact Ht|].
+      destruct t as [|y t']; cbn.
+      * constructor. apply req_index_le_total. exact E.
+      * destruct (req_index_le r y); constructor; [apply req_index_le_total; exact E|].
+        inversion Hx; assumption.
+Qed.
+Lemma by_user_index_sorted l : Sorted (fun a b => req_index_le a b = true) (by_user_index l).
+Proof. induction l as [|x t IH]; cbn; [constructor | apply rinsert_sorted; exact IH]. Qed.
+
+Theorem query_all_requests_spec s sa lim rs :
+  (query s (QAllRequests sa lim) = Ok (RRequests rs) \/ query s (QAllRequestsV2 sa lim) = Ok (RRequests rs)) ->
+  rs = all_requests (requests s) sa lim.
+Proof. cbn [query]. intros [H|H]; injection H as <-; reflexivity. Qed.
+
+Lemma take_n_all {A} (l : list A) n : N.of_nat (List.length l) <= n -> take_n n l = l.
+Proof.
+  revert n. induction l as [|x t IH]; intros n H; cbn [take_n]; [reflexivity|].
+  cbn [List.length] in H. destruct (n =? 0) eqn:E; [apply N.eqb_eq in E; lia|].
+  f_equal. apply IH. apply N.eqb_neq in E. lia.
+Qed.
+
+Theorem all_requests_complete rs :
+  N.of_nat (List.length rs) <= u32_max ->
+  Permutation (all_requests rs None None) rs
+  /\ Sorted (fun a b => req_index_le a b = true) (all_requests rs None None).
+Proof.
+  intros H. unfold all_requests. cbn [opt_default after_index_cursor].
+  rewrite take_n_all.
+  - split; [apply by_user_index_perm | apply by_user_index_sorted].
+  - rewrite (Permutation_length (by_user_index_perm rs)). exact H.
+Qed.
